@@ -55,11 +55,22 @@ class Run:
         return snapshot(self.world, need_rho=need_rho)
 
     # ----------------------------------------------------------------------------------
-    def call_op(self, opdesc: dict, entry: str, targets: List[str]):
+    def call_op(self, opdesc: dict, entry: str, targets: List[str], reuse: bool = False):
+        """reuse: apply the Operation object an earlier step of this program built from the same description
+        (users keep such objects around; what it does must not depend on its history)"""
+        import json
+
         w = self.world
         objs = [w.obj[t] for t in targets]
         tdims = [w.dim(t) if w.dim(t) > 0 else (int(w.obj[t].state) + 2 if isinstance(w.obj[t].state, int) else 2) for t in targets]
-        op = libcall(actions.make_operation, opdesc, tdims)
+        sized = opdesc["type"] in ("fock:Custom", "custom:Custom", "custom:Expresion") or any(f.get("kind") == "custom" for f in opdesc.get("factors", []))
+        key = json.dumps([opdesc, tdims if sized else None], sort_keys=True)
+        pool = self.__dict__.setdefault("op_pool", {})
+        if reuse and key in pool:
+            op = pool[key]
+        else:
+            op = libcall(actions.make_operation, opdesc, tdims)
+            pool[key] = op
         if entry == "state":
             libcall(objs[0].apply_operation, op)
         elif entry == "env":
